@@ -2,7 +2,7 @@
 # tools/verify_seed.sh <ID>  confirm a sub-agent's change in ITS scratch worktree (/tmp/wt/<ID>), never in /repo:
 #   existing suite passes with the change, demo fails with it, demo passes without it.
 export GOFLAGS=-mod=mod GOPROXY=off GOSUMDB=off GOTOOLCHAIN=local
-ID=$1; W=/tmp/wt/$ID; O=/tmp/wtout/$ID
+ID=$1; W=${WT:-/tmp/wt}/$ID; O=${WTO:-/tmp/wtout}/$ID
 cd $W || exit 2
 demo=$(ls $O/*_test.go | head -1); dname=$(basename $demo)
 pkgdir=.
